@@ -150,7 +150,10 @@ type logVault struct {
 	storage.Vault
 	mu     sync.Mutex
 	owner  map[uuid.UUID]int
+	row    map[uuid.UUID]int // position of the object in its plan, walk order (0 = the plan)
+	size   map[int]int       // objects per plan
 	writes map[int]int
+	order  map[int][]int // per plan: the rows written, in call order (cut off after 2 x size)
 	stray  int
 }
 
@@ -158,6 +161,9 @@ func (v *logVault) note(obj uuid.UUID) {
 	v.mu.Lock()
 	if i, ok := v.owner[obj]; ok {
 		v.writes[i]++
+		if len(v.order[i]) < 2*v.size[i] {
+			v.order[i] = append(v.order[i], v.row[obj])
+		}
 	} else {
 		v.stray++
 	}
@@ -332,29 +338,30 @@ var ageKinds = []string{"live-200ms", "live-1s", "live-div10", "stale+200ms", "s
 var ageW = []int{3, 2, 2, 3, 2, 2, 1, 1, 1}
 
 type planDesc struct {
-	Want      string `json:"want"`       // requested status family
-	Status    string `json:"status"`     // durable status of the plan in the store
-	AgeKind   string `json:"age_kind"`   // see ageKinds
-	AgeNs     int64  `json:"age_ns"`     // crafting time - most recent activity (states only)
-	Witness   string `json:"witness"`    // which object/field carries the most recent activity
-	Sprinkled int    `json:"sprinkled"`  // objects synthetically set Running
-	Objects   int    `json:"objects"`
-	RunningIn []string `json:"running_in"` // kinds of objects durably Running before
-	Budget    int    `json:"budget"`     // writes let through when the crash image was produced (-1 all)
-	Writes    int    `json:"total_writes"`
-	After     string `json:"after_status"`
-	Reason    string `json:"after_reason"`
-	RunAfter  int    `json:"running_after"` // objects still Running afterwards
-	Calls     int    `json:"plugin_calls"`
-	VWrites   int    `json:"vault_writes"`
-	Wait      string `json:"wait"` // returned | deadline | error
-	SameDef   bool   `json:"same_definition"`
+	Want       string   `json:"want"`      // requested status family
+	Status     string   `json:"status"`    // durable status of the plan in the store
+	AgeKind    string   `json:"age_kind"`  // see ageKinds
+	AgeNs      int64    `json:"age_ns"`    // crafting time - most recent activity (states only)
+	Witness    string   `json:"witness"`   // which object/field carries the most recent activity
+	Sprinkled  int      `json:"sprinkled"` // objects synthetically set Running
+	Objects    int      `json:"objects"`
+	RunningIn  []string `json:"running_in"` // kinds of objects durably Running before
+	Budget     int      `json:"budget"`     // writes let through when the crash image was produced (-1 all)
+	Writes     int      `json:"total_writes"`
+	After      string   `json:"after_status"`
+	Reason     string   `json:"after_reason"`
+	RunAfter   int      `json:"running_after"` // objects still Running afterwards
+	Calls      int      `json:"plugin_calls"`
+	VWrites    int      `json:"vault_writes"`
+	Wait       string   `json:"wait"` // returned | deadline | error
+	SameDef    bool     `json:"same_definition"`
+	FirstWrite int      `json:"first_row_written"` // -1 none; 0 = the plan row
 }
 
 type childResult struct {
-	Case  core.Case `json:"case"`
-	Slow  bool      `json:"slow"`
-	Error string    `json:"error,omitempty"`
+	Cases []core.Case `json:"cases"`
+	Slow  bool        `json:"slow"`
+	Error string      `json:"error,omitempty"`
 }
 
 func fatal(format string, a ...any) {
@@ -431,6 +438,14 @@ func child(index int, resPath string) {
 	mk := maxAges[r.Weighted(maxAgeW)]
 	fileBacked := r.Chance(0.2)
 	indexed := r.Chance(0.3) // the Vault implements storage.Recovery and has a search index that may be stale
+	// family "crash during the close": one stale Running plan (plus up to two plans that are not Running);
+	// for EVERY j an incarnation that dies after the j-th write of start-up recovery, then a normal one
+	crashFamily := index%6 == 5
+	if crashFamily {
+		nplans = 1 + r.Intn(3)
+		recovery, fileBacked, indexed = true, false, false
+		mk = maxAges[[]int{0, 1, 2, 3}[r.Intn(4)]]
+	}
 
 	// ---- phase 1: produce durable images with the real engine on a scratch vault
 	inner1, err := sqlite.New(ctx, "", set.Reg, sqlite.WithInMemory())
@@ -444,6 +459,9 @@ func child(index int, resPath string) {
 	}
 	run4 := func(seed *core.Rand, budget int, start bool) (uuid.UUID, int, string, int) {
 		o := plangen.Opts{MaxBlocks: 2, MaxSeqs: 2, MaxActions: 2, MaxCheckActions: 2, GroupP: 0.3}
+		if crashFamily {
+			o = plangen.Opts{MaxBlocks: 1, MaxSeqs: 2, MaxActions: 2, MaxCheckActions: 1, GroupP: 0.25}
+		}
 		if bigShapes && index%2 == 1 {
 			o = plangen.Opts{MaxBlocks: 3, MaxSeqs: 3, MaxActions: 3, MaxCheckActions: 2, GroupP: 0.45}
 		}
@@ -501,6 +519,12 @@ func child(index int, resPath string) {
 	for j := 0; j < nplans; j++ {
 		pr := r.Fork(uint64(1000 + j))
 		want := wantKinds[pr.Weighted(wantW)]
+		if crashFamily {
+			want = "Running"
+			if j > 0 {
+				want = wantKinds[pr.Intn(4)]
+			}
+		}
 		d := planDesc{Want: want, Budget: -1}
 		base := pr.Fork(1) // Fork does not advance base: base.Fork(7) is the same generator every time
 		var id uuid.UUID
@@ -555,6 +579,9 @@ func child(index int, resPath string) {
 		}
 		running := p.State.Status == workflow.Running
 		ak := ageKinds[pr.Weighted(ageW)]
+		if crashFamily && running {
+			ak = "stale-x10"
+		}
 		b.desc.AgeKind = ak
 		var age time.Duration
 		switch ak {
@@ -694,186 +721,248 @@ func child(index int, resPath string) {
 		}
 	}
 
-	// ---- phase 2: the store under test
-	root := ""
-	var opts2 []sqlite.Option
-	if fileBacked {
-		root, err = os.MkdirTemp("", "c11-")
+	anySlow := false
+	// ---- phase 2: the store under test (crashJ > 0: a first incarnation dies after crashJ writes)
+	runStore := func(crashJ int) core.Case {
+		nonceOf := func(b built) string {
+			if crashJ > 0 {
+				return fmt.Sprintf("J%d-%s", crashJ, b.nonce)
+			}
+			return b.nonce
+		}
+		for _, b := range plansB {
+			setNonce(b.img, nonceOf(b))
+		}
+		root := ""
+		var opts2 []sqlite.Option
+		if fileBacked {
+			root, err = os.MkdirTemp("", "c11-")
+			if err != nil {
+				fatal("MkdirTemp: %v", err)
+			}
+			defer os.RemoveAll(root)
+		} else {
+			opts2 = append(opts2, sqlite.WithInMemory())
+		}
+		inner2, err := sqlite.New(ctx, root, set.Reg, opts2...)
 		if err != nil {
-			fatal("MkdirTemp: %v", err)
+			fatal("sqlite.New (phase 2): %v", err)
 		}
-		defer os.RemoveAll(root)
-	} else {
-		opts2 = append(opts2, sqlite.WithInMemory())
-	}
-	inner2, err := sqlite.New(ctx, root, set.Reg, opts2...)
-	if err != nil {
-		fatal("sqlite.New (phase 2): %v", err)
-	}
-	for _, b := range plansB {
-		if err := inner2.Create(ctx, b.img); err != nil {
-			fatal("Create: %v", err)
+		for _, b := range plansB {
+			if err := inner2.Create(ctx, b.img); err != nil {
+				fatal("Create: %v", err)
+			}
 		}
-	}
-	if fileBacked {
-		// a real restart of the store: close it and open the file again
-		if err := inner2.Close(ctx); err != nil {
-			fatal("Close: %v", err)
+		if fileBacked {
+			// a real restart of the store: close it and open the file again
+			if err := inner2.Close(ctx); err != nil {
+				fatal("Close: %v", err)
+			}
+			inner2, err = sqlite.New(ctx, root, set.Reg)
+			if err != nil {
+				fatal("sqlite.New (reopen): %v", err)
+			}
 		}
-		inner2, err = sqlite.New(ctx, root, set.Reg)
-		if err != nil {
-			fatal("sqlite.New (reopen): %v", err)
-		}
-	}
-	cx := plancoq.NewCtx(set.Lookup)
-	lv := &logVault{Vault: inner2, owner: map[uuid.UUID]int{}, writes: map[int]int{}}
-	var beforeTerms, beforeSkel []string
-	for j, b := range plansB {
-		before, err := inner2.Read(ctx, b.img.ID)
-		if err != nil {
-			fatal("Read before: %v", err)
-		}
-		for _, n := range nodesOf(before) {
-			lv.owner[n.id] = j
-		}
-		beforeTerms = append(beforeTerms, cx.Plan(before))
-		blank(before)
-		beforeSkel = append(beforeSkel, cx.Plan(before))
-	}
-
-	var opts []coercion.Option
-	if mk.Pass {
-		opts = append(opts, coercion.WithMaxLastUpdate(mk.D))
-	}
-	if !recovery {
-		opts = append(opts, coercion.WithNoRecovery())
-	}
-	optOrder := "age,norecovery"
-	if len(opts) == 2 && r.Chance(0.5) {
-		opts[0], opts[1] = opts[1], opts[0]
-		optOrder = "norecovery,age"
-	}
-	var top storage.Vault = lv
-	var iv *indexVault
-	var staleIx []string
-	staleDesc := []int{}
-	if indexed {
-		iv = &indexVault{Vault: lv, seen: map[string]bool{}}
-		// one durably terminal plan of the store (two now and then) is still listed as Running by the index
-		var term []int
+		cx := plancoq.NewCtx(set.Lookup)
+		lv := &logVault{Vault: inner2, owner: map[uuid.UUID]int{}, writes: map[int]int{}, row: map[uuid.UUID]int{}, size: map[int]int{}, order: map[int][]int{}}
+		var beforeTerms, beforeSkel []string
 		for j, b := range plansB {
-			switch b.img.State.Status {
-			case workflow.Completed, workflow.Failed, workflow.Stopped:
-				term = append(term, j)
+			before, err := inner2.Read(ctx, b.img.ID)
+			if err != nil {
+				fatal("Read before: %v", err)
 			}
-		}
-		for k := 0; k < 2 && len(term) > 0; k++ {
-			if k == 1 && !r.Chance(0.25) {
-				break
+			for k, n := range nodesOf(before) {
+				lv.owner[n.id] = j
+				lv.row[n.id] = k
+				lv.size[j]++
 			}
-			w := r.Intn(len(term))
-			j := term[w]
-			term = append(term[:w], term[w+1:]...)
-			iv.stale = append(iv.stale, plansB[j].img.ID)
-			staleIx = append(staleIx, core.N(cx.UidIx(plansB[j].img.ID)))
-			staleDesc = append(staleDesc, j)
+			beforeTerms = append(beforeTerms, cx.Plan(before))
+			blank(before)
+			beforeSkel = append(beforeSkel, cx.Plan(before))
 		}
-		top = iv
-	}
-	t0 := time.Now()
-	ws2, err := coercion.New(ctx, set.Reg, top, opts...)
-	t1 := time.Now()
-	if err != nil {
-		fatal("coercion.New: %v", err)
-	}
-	slow := t1.Sub(tCraft) > 150*time.Millisecond
 
-	// wait for whatever was resumed (Wait returns at once for an id without a waiter)
-	deadline := time.Now().Add(4 * time.Second)
-	waits := make([]string, len(plansB))
-	for j, b := range plansB {
-		wctx, cancel := context.WithDeadline(ctx, deadline)
-		_, err := ws2.Wait(wctx, b.img.ID)
-		cancel()
-		switch {
-		case err == nil:
-			waits[j] = "returned"
-		case err == context.Canceled || err == context.DeadlineExceeded:
-			waits[j] = "deadline"
-		default:
-			waits[j] = "error"
+		var opts []coercion.Option
+		if mk.Pass {
+			opts = append(opts, coercion.WithMaxLastUpdate(mk.D))
 		}
-	}
-	time.Sleep(30 * time.Millisecond)
-
-	// ---- observe
-	var obsTerms []string
-	var descs []planDesc
-	hashParts := []string{fmt.Sprint(recovery), mk.Name}
-	nontrivial := false
-	for j, b := range plansB {
-		after, err := inner2.Read(ctx, b.img.ID)
+		if !recovery {
+			opts = append(opts, coercion.WithNoRecovery())
+		}
+		optOrder := "age,norecovery"
+		if len(opts) == 2 && r.Chance(0.5) {
+			opts[0], opts[1] = opts[1], opts[0]
+			optOrder = "norecovery,age"
+		}
+		var top storage.Vault = lv
+		var iv *indexVault
+		var staleIx []string
+		staleDesc := []int{}
+		if indexed {
+			iv = &indexVault{Vault: lv, seen: map[string]bool{}}
+			// one durably terminal plan of the store (two now and then) is still listed as Running by the index
+			var term []int
+			for j, b := range plansB {
+				switch b.img.State.Status {
+				case workflow.Completed, workflow.Failed, workflow.Stopped:
+					term = append(term, j)
+				}
+			}
+			for k := 0; k < 2 && len(term) > 0; k++ {
+				if k == 1 && !r.Chance(0.25) {
+					break
+				}
+				w := r.Intn(len(term))
+				j := term[w]
+				term = append(term[:w], term[w+1:]...)
+				iv.stale = append(iv.stale, plansB[j].img.ID)
+				staleIx = append(staleIx, core.N(cx.UidIx(plansB[j].img.ID)))
+				staleDesc = append(staleDesc, j)
+			}
+			top = iv
+		}
+		t0 := time.Now()
+		t1 := t0
+		if crashJ > 0 {
+			// incarnation 1: every Update* after the crashJ-th is lost (the process died just before it)
+			lim1 := &limitVault{Vault: inner2, owner: map[uuid.UUID]uuid.UUID{}, budget: map[uuid.UUID]int{}, count: map[uuid.UUID]int{}}
+			for id := range lv.owner {
+				lim1.owner[id] = uuid.Nil // one budget for the whole store
+			}
+			lim1.budget[uuid.Nil] = crashJ
+			if _, err := coercion.New(ctx, set.Reg, lim1, opts...); err != nil {
+				fatal("coercion.New (incarnation 1): %v", err)
+			}
+			t1 = time.Now()
+			time.Sleep(2 * time.Millisecond)
+		}
+		t2 := time.Now()
+		ws2, err := coercion.New(ctx, set.Reg, top, opts...)
+		t3 := time.Now()
+		if crashJ == 0 {
+			t0, t1 = t2, t3
+		}
 		if err != nil {
-			fatal("Read after: %v", err)
+			fatal("coercion.New: %v", err)
 		}
-		d := b.desc
-		var sts []string
-		for _, n := range nodesOf(after) {
-			sts = append(sts, stateTerm(n.st))
-			if n.st.Status == workflow.Running {
-				d.RunAfter++
+		slow := !crashFamily && t1.Sub(tCraft) > 150*time.Millisecond
+
+		// wait for whatever was resumed (Wait returns at once for an id without a waiter)
+		deadline := time.Now().Add(4 * time.Second)
+		waits := make([]string, len(plansB))
+		for j, b := range plansB {
+			wctx, cancel := context.WithDeadline(ctx, deadline)
+			_, err := ws2.Wait(wctx, b.img.ID)
+			cancel()
+			switch {
+			case err == nil:
+				waits[j] = "returned"
+			case err == context.Canceled || err == context.DeadlineExceeded:
+				waits[j] = "deadline"
+			default:
+				waits[j] = "error"
 			}
 		}
-		d.After = plancoq.Status(after.State.Status)
-		d.Reason = plancoq.Reason(after.Reason)
-		d.Calls = calls.get(b.nonce)
+		time.Sleep(30 * time.Millisecond)
+
+		// ---- observe
+		var obsTerms []string
+		var descs []planDesc
+		hashParts := []string{fmt.Sprint(recovery), mk.Name}
+		nontrivial := false
+		for j, b := range plansB {
+			after, err := inner2.Read(ctx, b.img.ID)
+			if err != nil {
+				fatal("Read after: %v", err)
+			}
+			d := b.desc
+			var sts []string
+			for _, n := range nodesOf(after) {
+				sts = append(sts, stateTerm(n.st))
+				if n.st.Status == workflow.Running {
+					d.RunAfter++
+				}
+			}
+			d.After = plancoq.Status(after.State.Status)
+			d.Reason = plancoq.Reason(after.Reason)
+			d.Calls = calls.get(nonceOf(b))
+			lv.mu.Lock()
+			d.VWrites = lv.writes[j]
+			var ord []string
+			for _, k := range lv.order[j] {
+				ord = append(ord, core.Nat(k))
+			}
+			d.FirstWrite = -1
+			if len(lv.order[j]) > 0 {
+				d.FirstWrite = lv.order[j][0]
+			}
+			lv.mu.Unlock()
+			d.Wait = waits[j]
+			reason := plancoq.Reason(after.Reason)
+			blank(after)
+			d.SameDef = cx.Plan(after) == beforeSkel[j]
+			obsTerms = append(obsTerms, core.App("Build_pobs", core.B(d.SameDef), reason, core.List(sts), core.Nat(d.Calls), core.Nat(d.VWrites), core.List(ord)))
+			descs = append(descs, d)
+			hashParts = append(hashParts, d.Status, d.AgeKind, d.Witness, fmt.Sprint(d.Objects), strings.Join(d.RunningIn, ","), d.After, d.Reason)
+			if d.Status == "Running" {
+				nontrivial = true
+			}
+		}
+		vaultKind := 0
+		var callOrder, early []string
+		if iv != nil {
+			iv.mu.Lock()
+			callOrder = append(callOrder, iv.order...)
+			early = append(early, iv.early...)
+			vaultKind = 1
+			if !iv.recovered || len(iv.early) > 0 {
+				vaultKind = 2
+			}
+			iv.mu.Unlock()
+		}
+		hashParts = append(hashParts, fmt.Sprint(vaultKind, staleDesc, crashJ))
+		term := core.App("Build_case", plancoq.Time(t0), plancoq.Time(t1), core.Z(int64(mk.D)), core.B(recovery),
+			core.List(beforeTerms), core.List(obsTerms), core.Nat(vaultKind), core.List(staleIx),
+			core.Nat(crashJ), plancoq.Time(t2), plancoq.Time(t3))
+		statuses := []string{}
+		for _, d := range descs {
+			statuses = append(statuses, d.Status)
+		}
+		sort.Strings(statuses)
 		lv.mu.Lock()
-		d.VWrites = lv.writes[j]
+		stray := lv.stray
 		lv.mu.Unlock()
-		d.Wait = waits[j]
-		reason := plancoq.Reason(after.Reason)
-		blank(after)
-		d.SameDef = cx.Plan(after) == beforeSkel[j]
-		obsTerms = append(obsTerms, core.App("Build_pobs", core.B(d.SameDef), reason, core.List(sts), core.Nat(d.Calls), core.Nat(d.VWrites)))
-		descs = append(descs, d)
-		hashParts = append(hashParts, d.Status, d.AgeKind, d.Witness, fmt.Sprint(d.Objects), strings.Join(d.RunningIn, ","), d.After, d.Reason)
-		if d.Status == "Running" {
-			nontrivial = true
+		if slow {
+			anySlow = true
+		}
+		id, kind := fmt.Sprintf("store-%d", index), "store"
+		if crashJ > 0 {
+			id, kind = fmt.Sprintf("store-%d-crash-%d", index, crashJ), "crash-during-close"
+		}
+		return core.Case{
+			ID:         id,
+			Kind:       kind,
+			Coq:        term,
+			Nontrivial: nontrivial,
+			Hash:       core.Hash(hashParts...),
+			Dist:       map[string]any{"plans": len(plansB), "recovery": recovery, "max_age": mk.Name, "file_backed": fileBacked, "statuses": statuses, "new_ms": t1.Sub(t0).Milliseconds(), "slack_ms": t1.Sub(tCraft).Milliseconds(), "stray_writes": stray, "option_order": optOrder, "indexed_vault": indexed, "stale_index_plans": staleDesc, "vault_call_order": callOrder, "calls_before_recovery": early, "crash_after_write": crashJ},
+			Input:      map[string]any{"seed": core.Seed(), "index": index, "max_age_ns": int64(mk.D), "max_age_option_passed": mk.Pass, "recovery": recovery, "file_backed": fileBacked, "crash_after_write": crashJ},
+			Observed:   descs,
+		}
+	} // runStore
+
+	var res childResult
+	if !crashFamily {
+		res.Cases = append(res.Cases, runStore(0))
+	} else {
+		n := 1
+		if len(plansB) > 0 && plansB[0].img.State.Status == workflow.Running {
+			n = len(nodesOf(plansB[0].img))
+		}
+		for j := 1; j <= n; j++ {
+			res.Cases = append(res.Cases, runStore(j))
 		}
 	}
-	vaultKind := 0
-	var callOrder, early []string
-	if iv != nil {
-		iv.mu.Lock()
-		callOrder = append(callOrder, iv.order...)
-		early = append(early, iv.early...)
-		vaultKind = 1
-		if !iv.recovered || len(iv.early) > 0 {
-			vaultKind = 2
-		}
-		iv.mu.Unlock()
-	}
-	hashParts = append(hashParts, fmt.Sprint(vaultKind, staleDesc))
-	term := core.App("Build_case", plancoq.Time(t0), plancoq.Time(t1), core.Z(int64(mk.D)), core.B(recovery),
-		core.List(beforeTerms), core.List(obsTerms), core.Nat(vaultKind), core.List(staleIx))
-	statuses := []string{}
-	for _, d := range descs {
-		statuses = append(statuses, d.Status)
-	}
-	sort.Strings(statuses)
-	lv.mu.Lock()
-	stray := lv.stray
-	lv.mu.Unlock()
-	res := childResult{Slow: slow, Case: core.Case{
-		ID:         fmt.Sprintf("store-%d", index),
-		Kind:       "store",
-		Coq:        term,
-		Nontrivial: nontrivial,
-		Hash:       core.Hash(hashParts...),
-		Dist:       map[string]any{"plans": len(plansB), "recovery": recovery, "max_age": mk.Name, "file_backed": fileBacked, "statuses": statuses, "new_ms": t1.Sub(t0).Milliseconds(), "slack_ms": t1.Sub(tCraft).Milliseconds(), "stray_writes": stray, "option_order": optOrder, "indexed_vault": indexed, "stale_index_plans": staleDesc, "vault_call_order": callOrder, "calls_before_recovery": early},
-		Input:      map[string]any{"seed": core.Seed(), "index": index, "max_age_ns": int64(mk.D), "max_age_option_passed": mk.Pass, "recovery": recovery, "file_backed": fileBacked},
-		Observed:   descs,
-	}}
+	res.Slow = anySlow
 	b, _ := json.Marshal(res)
 	if err := os.WriteFile(resPath, b, 0o644); err != nil {
 		fatal("write result: %v", err)
@@ -917,7 +1006,7 @@ func main() {
 	}
 	defer os.RemoveAll(tmp)
 
-	results := make([]core.Case, *n)
+	results := make([][]core.Case, *n)
 	var wg sync.WaitGroup
 	sem := make(chan struct{}, *workers)
 	for i := 0; i < *n; i++ {
@@ -937,12 +1026,14 @@ func main() {
 		if *only >= 0 && i != *only {
 			continue
 		}
-		w.Put(results[i])
+		for _, c := range results[i] {
+			w.Put(c)
+		}
 	}
 }
 
-func runChild(self, tmp string, i int) core.Case {
-	var last core.Case
+func runChild(self, tmp string, i int) []core.Case {
+	var last []core.Case
 	for attempt := 0; attempt < 4; attempt++ {
 		res := fmt.Sprintf("%s/res-%d-%d.json", tmp, i, attempt)
 		args := []string{"-child", fmt.Sprint(i), "-res", res}
@@ -955,7 +1046,7 @@ func runChild(self, tmp string, i int) core.Case {
 		cmd.Stdout = &errb
 		cmd.Stderr = &errb
 		if err := cmd.Start(); err != nil {
-			return core.Case{ID: fmt.Sprintf("store-%d", i), Kind: "store", Note: "spawn: " + err.Error()}
+			return []core.Case{{ID: fmt.Sprintf("store-%d", i), Kind: "store", Note: "spawn: " + err.Error()}}
 		}
 		done := make(chan error, 1)
 		go func() { done <- cmd.Wait() }()
@@ -978,24 +1069,28 @@ func runChild(self, tmp string, i int) core.Case {
 			if timedOut {
 				note = "timeout: "
 			}
-			last = core.Case{ID: fmt.Sprintf("store-%d", i), Kind: "store", Note: note + fmt.Sprint(werr) + "\n" + tail,
-				Input: map[string]any{"seed": core.Seed(), "index": i}}
+			last = []core.Case{{ID: fmt.Sprintf("store-%d", i), Kind: "store", Note: note + fmt.Sprint(werr) + "\n" + tail,
+				Input: map[string]any{"seed": core.Seed(), "index": i}}}
 			continue // a fresh child: crashes of resumed runs are not C11's matter, but we want the observation
 		}
 		var cr childResult
 		if err := json.Unmarshal(b, &cr); err != nil {
-			last = core.Case{ID: fmt.Sprintf("store-%d", i), Kind: "store", Note: "bad result: " + err.Error()}
+			last = []core.Case{{ID: fmt.Sprintf("store-%d", i), Kind: "store", Note: "bad result: " + err.Error()}}
 			continue
 		}
-		last = cr.Case
-		if last.Dist == nil {
-			last.Dist = map[string]any{}
+		last = cr.Cases
+		for k := range last {
+			if last[k].Dist == nil {
+				last[k].Dist = map[string]any{}
+			}
+			last[k].Dist["attempts"] = attempt + 1
 		}
-		last.Dist["attempts"] = attempt + 1
 		if !cr.Slow {
 			return last
 		}
-		last.Note = "slow"
+		for k := range last {
+			last[k].Note = "slow"
+		}
 	}
 	return last
 }
